@@ -105,9 +105,15 @@ type stubInformator struct {
 	seqNo   int32
 	salt    int64
 	key     []byte
+	during  func(which int) // what else happens in the process while this connection's message is being sealed
 }
 
-func (s *stubInformator) GetSessionID() int64  { return s.session }
-func (s *stubInformator) GetSeqNo() int32      { return s.seqNo }
-func (s *stubInformator) GetServerSalt() int64 { return s.salt }
-func (s *stubInformator) GetAuthKey() []byte   { return s.key }
+func (s *stubInformator) meanwhile(which int) {
+	if s.during != nil {
+		s.during(which)
+	}
+}
+func (s *stubInformator) GetSessionID() int64  { s.meanwhile(0); return s.session }
+func (s *stubInformator) GetSeqNo() int32      { s.meanwhile(1); return s.seqNo }
+func (s *stubInformator) GetServerSalt() int64 { s.meanwhile(2); return s.salt }
+func (s *stubInformator) GetAuthKey() []byte   { s.meanwhile(3); return s.key }
